@@ -381,7 +381,7 @@ func genModel(p *simkit.Plan, r *simkit.Rand, tier string) {
 			op := simkit.Op{Actor: "user", Kind: "swaplink", S: []string{simkit.Pick(r, []string{"alpha", "beta"}), simkit.Pick(r, []string{"a", "b", "c", "a/b", "a/a"})}}
 			p.Ops = append(p.Ops[:at:at], append([]simkit.Op{op}, p.Ops[at:]...)...)
 		}
-		if r.Chance(1, 4) && c["dev_side"] == 0 {
+		if r.Chance(1, 2) && c["dev_side"] == 0 {
 			// Root creation: the receiving root does not exist yet, the first
 			// cycle creates it with everything in it through one change at the
 			// root path - and the user swaps a directory that has just been
@@ -396,7 +396,13 @@ func genModel(p *simkit.Plan, r *simkit.Rand, tier string) {
 			p.Ops = append(append(pre, p.Ops...), simkit.Op{Actor: "init", Kind: "rootdel", S: []string{dst, ""}})
 			id++
 			// (Armed before the session exists: the first cycle starts at once.)
-			p.Ops = append(p.Ops, simkit.Op{Actor: "init", Kind: "arm", N: []int64{int64(r.Range(2, 16)), id}, S: []string{dst, "transition", "swaplink", simkit.Pick(r, []string{"a", "a/b", "a/a", "c"})}},
+			armed := simkit.Op{Actor: "init", Kind: "arm", N: []int64{int64(r.Range(2, 16)), id}, S: []string{dst, "transition", "swaplink", simkit.Pick(r, []string{"a", "a/b", "a/a", "c"})}}
+			if r.Chance(2, 3) {
+				// ... exactly between the mkdirat that made it and the openat
+				// that enters it.
+				armed.S = append(armed.S, "mkdirat")
+			}
+			p.Ops = append(p.Ops, armed,
 				simkit.Op{Actor: "client", Kind: "flush", N: []int64{1}})
 			c["root_creation"] = 1
 		}
